@@ -19,9 +19,9 @@ def run(ctx):
               "N 1..4, (storage, M) in {(float,1),(double,3)}: EVERY extent vector in 1..B_N (64/12/6/4 quick, 256/24/10/6 thorough); source "
               "filled with a unique id per cell component; checked: converted field reports the same extents, holds the same value at every "
               "lattice coordinate; the source is unchanged and shares no storage with the copy; A->B->A reproduces values and extents; "
-              "move-conversion. Whole stacks affine<I1<L1<array>>> -> affine<I2<L2<array>>> (I in {nearest, linear}) "
+              "move-conversion; the same with the STORED SCALAR TYPE changing too (float<->double) into every storage order. Whole stacks affine<I1<L1<array>>> -> affine<I2<L2<array>>> (I in {nearest, linear}) "
               "with a random transform: transform and extents preserved, every lattice value equal at the storage-order level and through the "
-              "whole stack with the identity transform.  Host array -> cuda_device_array compiled against a host shim of the CUDA runtime "
+              "whole stack with the identity transform; copied from an lvalue and converted from an rvalue (field<B> b(std::move(a))); cross-precision.  Host array -> cuda_device_array compiled against a host shim of the CUDA runtime "
               "(malloc/memcpy/free, counted) under ASan.  non-trivial: different source and target layers and extents not a power-of-two cube; "
               "distinct = hash of (pair, extents)"),
         assumptions=["the innermost array length is never asserted (any amount covering the largest curve position is correct; C18 checks that bound, ASan every access)",
